@@ -287,13 +287,12 @@ theorem sq128_spec (x : BitVec 64) :
   exact core.trans key.symm
 
 theorem square_get (a : V4) (i : Fin 4) :
-    (square_avx a).1.get i = L2.bin reduce_avx_128_64 (sq128h (a.get i)) (sq128l (a.get i)) := by
+    (square_avx a).get i = L2.bin reduce_avx_128_64 (sq128h (a.get i)) (sq128l (a.get i)) := by
   simp only [square_avx, reduce128_get, (square128_get a i).1, (square128_get a i).2]
 
-/-- square_avx : every lane is the square mod p; the operand register is returned unchanged -/
+/-- square_avx : every lane is the square mod p (the operand register is only read) -/
 theorem square_spec (a : V4) (i : Fin 4) :
-    ((square_avx a).1.get i).toNat % P = ((a.get i).toNat * (a.get i).toNat) % P ∧ (square_avx a).2 = a := by
-  refine ⟨?_, rfl⟩
+    ((square_avx a).get i).toNat % P = ((a.get i).toNat * (a.get i).toNat) % P := by
   rw [square_get, reduce128_spec, sq128_spec]
 
 end GoldilocksVerif
